@@ -4,7 +4,8 @@ From VF Require Import Base.RingOps Base.Mat Base.Tensor Base.K8 Gates.GateSpecs
   Cliff.Tableau Cliff.TableauSem Cliff.TableauCircuit Generated.TableauRules
   Cliff.TableauProofs Cliff.TableauConjProofs Cliff.TableauTrackProofs Cliff.TableauCircuitProofs
   Cliff.TableauThen Cliff.TableauThenProofs Cliff.CliffGroup Cliff.CliffGroupProofs
-  Cliff.CHForm Cliff.CHFormHarness Cliff.CHFormProofs Cliff.TableauRowsumProofs.
+  Cliff.CHForm Cliff.CHFormHarness Cliff.CHFormProofs Cliff.TableauRowsumProofs
+  Cliff.TableauPad Cliff.TableauPadProofs Cliff.CHFormJoin Cliff.CHFormJoinProofs.
 Import ListNotations.
 
 (* every regenerated rule table of CliffordTableau (apply_x/y/z/h/cz/cx, _swap, g, _rowsum) is the model's rule *)
@@ -142,6 +143,73 @@ Theorem C13_rowsum_is_product_small :
   forallb rowsum_pair_ok (model_rowsum 1) = true /\ forallb rowsum_pair_ok (model_rowsum 2) = true.
 Proof. exact rowsum_is_product_small. Qed.
 Print Assumptions C13_rowsum_is_product_small.
+
+(* D8: a multi-qubit CliffordGate object acting on a tableau state (CliffordGate._act_on_ = then(_pad_tableau(gate, n, axes))).
+   For every k, n and every list of k distinct axes below n, padding commutes with every rule of the vocabulary: the gate on
+   axis a of the k-qubit tableau is the gate on axis axes[a] of the padded one *)
+Theorem C13_pad_commutes_with_rules : forall k n axes g t, axes_wf k n axes -> gate_axes_ok k g -> tab_shape k t ->
+  apply_gate (remap_gate axes g) (pad_tab k n axes t) = option_map (pad_tab k n axes) (apply_gate g t).
+Proof. exact pad_apply_gate. Qed.
+Print Assumptions C13_pad_commutes_with_rules.
+
+(* hence the padded tableau of a circuit on k qubits is the tableau of the circuit placed on the axes, in the order given *)
+Theorem C13_pad_tab_of_circuit : forall k n axes gs t, axes_wf k n axes -> Forall (gate_axes_ok k) gs ->
+  apply_gates gs (init_tableau k []) = Some t ->
+  apply_gates (map (remap_gate axes) gs) (init_tableau n []) = Some (pad_tab k n axes t).
+Proof. exact pad_tab_of_circuit. Qed.
+Print Assumptions C13_pad_tab_of_circuit.
+
+(* and its rows are U P U^dagger for the unitary U of that placed circuit *)
+Theorem C13_padded_tableau_tracks : forall K (O : Ops K), Laws O -> forall k n axes (gs : list (cgate * K)) lgs t,
+  axes_wf k n axes -> 0 < n ->
+  Forall (fun gp => gate_axes_ok k (fst gp) /\ exists phc, kmul O (snd gp) phc = k1 O) gs ->
+  apply_gates (map fst gs) (init_tableau k []) = Some t ->
+  sem_circuit O (map (fun gp => (remap_gate axes (fst gp), snd gp)) gs) = Some lgs ->
+  pad_tab k n axes t = map (rows_after lgs) (init_tableau n []) /\
+  forall row psi i, length (rbits row) = n -> wf n i ->
+    lg_run O lgs (pauli_act O row psi) i = pauli_act O (rows_after lgs row) (lg_run O lgs psi) i.
+Proof. exact @padded_tableau_tracks. Qed.
+Print Assumptions C13_padded_tableau_tracks.
+
+(* the inputs the model's act_cgate accepts meet the hypotheses; the order of the axes matters (CNOT on [1;0] is the CNOT
+   with control 1, not the canonical-order one); the hypotheses are satisfiable *)
+Theorem C13_pad_inputs_and_order :
+  (forall k n axes, axes_valid k n axes = true -> axes_wf k n axes) /\
+  (let cx := match apply_gate (CCX_ 4 0 1) (init_tableau 2 []) with Some t => t | None => [] end in
+   apply_gate (CCX_ 4 1 0) (init_tableau 2 []) = Some (pad_tab 2 2 [1; 0] cx) /\
+   tab_eqb (pad_tab 2 2 [1; 0] cx) (pad_tab 2 2 [0; 1] cx) = false /\ pad_tab 2 2 [0; 1] cx = cx) /\
+  (axes_wf 2 3 [2; 0] /\ Forall (gate_axes_ok 2) [CH_ 4 0; CCX_ 4 0 1; CZ_ 2 1] /\
+   (exists t, apply_gates [CH_ 4 0; CCX_ 4 0 1; CZ_ 2 1] (init_tableau 2 []) = Some t) /\ axes_valid 2 3 [2; 0] = true).
+Proof. exact (conj axes_valid_wf (conj pad_order_matters pad_hypotheses_satisfiable)). Qed.
+Print Assumptions C13_pad_inputs_and_order.
+
+(* D9 (partial, exact in Q(zeta_8)): kron and reindex of the CH form.  For every state reached by a short circuit, every
+   permutation axes of its qubits and every basis state y: <y| reindex(axes) c> = <y'| c> with y'[axes[i]] = y[i];
+   <y1 y2| a.kron(b)> = <y1|a> <y2|b>; a reindex that reads through the inverse permutation fails this for a 3-cycle *)
+Theorem C13_chform_reindex_ok_partial :
+  length st2 = 211 /\ length st3 = 160 /\ reindex_ok 2 st2 = true /\ reindex_ok 3 st3 = true.
+Proof. exact chform_reindex_ok_partial. Qed.
+Print Assumptions C13_chform_reindex_ok_partial.
+
+Theorem C13_chform_kron_ok_partial :
+  kron_ok 1 1 st1s st1 = true /\ kron_ok 1 2 st1s st2 = true /\ kron_ok 2 1 st2 st1s = true /\ kron_ok 2 2 st2s st2s = true /\
+  kron_ok 1 3 st1s st3 = true /\ kron_ok 3 1 st3 st1s = true.
+Proof. exact chform_kron_ok_partial. Qed.
+Print Assumptions C13_chform_kron_ok_partial.
+
+Theorem C13_chform_reindex_direction_matters :
+  exists c y, In c st3 /\
+    k8_eqb (ch_amp K8Ops (scatter_reindex [1; 2; 0] c) y) (ch_amp K8Ops c (old_digits 3 [1; 2; 0] y)) = false.
+Proof. exact chform_reindex_direction_matters. Qed.
+Print Assumptions C13_chform_reindex_direction_matters.
+
+(* for every n: reindexing twice is reindexing by the composed order; the identity order changes nothing *)
+Theorem C13_ch_reindex_structure :
+  (forall K (a b : list nat) (c : chst (K:=K)), Forall (fun x => x < length a) b ->
+     ch_reindex b (ch_reindex a c) = ch_reindex (sel 0 b a) c) /\
+  (forall K n (c : chst (K:=K)), ch_shape n c -> ch_reindex (seq 0 n) c = c) /\ ch_shape 3 (ch_zero K8Ops 3).
+Proof. exact (conj (@ch_reindex_compose) (conj (@ch_reindex_id) ch_shape_zero)). Qed.
+Print Assumptions C13_ch_reindex_structure.
 
 (* non-vacuity: the laws are inhabited (exact field Q(zeta_8)) and a Bell-pair circuit with an S gate meets every hypothesis *)
 Example C13_hypotheses_satisfiable :
